@@ -239,7 +239,7 @@ def cutoffs_and_nearest(mt, model, trace, counters=None):
 
 
 # ------------------------------------------------------------------------------------------- C02
-def rescore_path(mt, family, model, counters=None, stamps=None):
+def rescore_path(mt, family, model, counters=None, stamps=None, cfg=None):
     """C02: reported numbers along the best path equal the documented model's numbers."""
     out = []
     lb = mt.lattice_best or []
@@ -262,7 +262,7 @@ def rescore_path(mt, family, model, counters=None, stamps=None):
     if family == "distance":
         fields += ["d_o", "d_s"]
     prev_entry = None
-    for x, cur in rescoring.rescore(mt, dist_fn, family):
+    for x, cur in rescoring.rescore(mt, dist_fn, family, cfg=cfg):
         if counters is not None:
             counters["states_rescored"] = counters.get("states_rescored", 0) + 1
             if x.obs_ne != 0:
